@@ -370,7 +370,7 @@ def run(F, S, R, tier):
             R.bad("cmp/uncle-descent/anchor-lost", "expected 3 `(parent.number + 1) == uncle.number` tests (embedded, main-chain parent, uncle parent), found %d" % n, [uv.where()])
         else:
             R.ok("cmp/uncle-descent", "%d uncle-descent tests are `parent.number + 1 == uncle.number`" % n, [uv.where(), dc.where()])
-        K.mustcall(R, "mustcall/uncle-descent", uv, [r"UncleProvider::descendant$"], S, assume=[(r"Option::<.*>::unwrap_or$", False)],
+        K.mustcall(R, "mustcall/uncle-descent", uv, [r"UncleProvider::descendant$"], S, assume=[(r"Option::<.*>::(unwrap_or|is_some_and)$", False)],
                    ends={c.bb for c in uv.calls_to(r"HashMap::<.*>::insert$")}, what="an uncle not descending from an embedded uncle is accepted only after the chain-descent test")
         K.mustcall(R, "mustcall/uncle-double-inclusion", uv, [r"UncleProvider::double_inclusion$"], S, assume=[], what="double inclusion is tested for every uncle") if False else None
         di = F.one(VC, r"UncleVerifierContext<'a, 'b, CS> as .*UncleProvider>::double_inclusion$")
